@@ -12,7 +12,7 @@ def run(ck):
         ck.coq()
         backend_stage(ck, ["-replay", ck.replay])
         return
-    _bc.run_bc(ck, "c12", set("c12_will c15_in_order c20_closes".split()))  # the last two added by the audit (audit/C12.md), with the harness-side clauses c12_keepalive_armed / c12_keepalive_expiry
+    _bc.run_bc(ck, "c12", set("c12_will c15_in_order c20_closes c12_will_link".split()))  # the last two added by the audit (audit/C12.md), with the harness-side clauses c12_keepalive_armed / c12_keepalive_expiry
     if ck.replay:
         return
     ev, di = ck.evaluations, ck.distinct
